@@ -240,6 +240,9 @@ type concResult struct {
 func concRun(cs *C18Case, sr *RNG, replay bool, st *C18Stats) *concResult {
 	tensor.UsePool()
 	tensor.VerifDrainChanPools()
+	// the library as a fresh process finds it: its lazily filled tables (the map of scalar-buffer pools) are
+	// empty again, so that the clients meet in the creation paths too, not only in the lookups
+	tensor.VerifInstall(P.Hooks())
 	P.Reset(true)
 	P.recycleNum, P.dropDen, P.policy = cs.RecycleNum, cs.DropDen, cs.Policy
 	resetFinalizers()
@@ -304,8 +307,7 @@ func concRun(cs *C18Case, sr *RNG, replay bool, st *C18Stats) *concResult {
 			P.BeginOp(c, 0)
 			res.outs[c][k] = o
 			if o.St == stDeadlock {
-				res.deadlock = true
-				break
+				break // (recorded in the outcome; collected after the run - several clients may get here)
 			}
 			S.Boundary()
 		}
@@ -321,7 +323,14 @@ func concRun(cs *C18Case, sr *RNG, replay bool, st *C18Stats) *concResult {
 			}
 		}
 	}
-	res.deadlock = res.deadlock || S.deadlock
+	res.deadlock = S.deadlock
+	for c := range res.outs {
+		for _, o := range res.outs[c] {
+			if o.St == stDeadlock {
+				res.deadlock = true
+			}
+		}
+	}
 	d := uint64(fnvOff)
 	for c := range res.outs {
 		for _, o := range res.outs[c] {
@@ -704,8 +713,26 @@ func workC18(res *WorkerResult, start time.Time) {
 			st.Deadlocks++
 		}
 		orig := map[string]int{"clients": cs.Clients, "switches": len(cs.Tape)}
+		if v.Kind == "deadlock" || v.Kind == "no-termination" {
+			// A goroutine that will never run again may hold one of the library's own locks for good: nothing
+			// more can be executed in this process (the next run would block in the library, outside the
+			// scheduler's reach). The case is confirmed and minimised in fresh processes, then this worker ends.
+			if !raceRecurs(cs) {
+				st.Unreproducible++
+				fmt.Fprintf(os.Stderr, "tsim: C18 run %d: %s did not recur in a fresh process; counted, not reported\n", run, v.Kind)
+				break
+			}
+			mc := minimiseRace(cs, 30)
+			rf := ReplayFile{Property: "C18", Violation: v, Seed: *flagSeed, Run: run, Tags: *flagTags, C18: mc, From: orig}
+			path := saveReplay(&rf)
+			res.Violations = append(res.Violations, rf)
+			res.Replays = append(res.Replays, path)
+			break
+		}
+		confirmGC = true
 		mc, mv := minimiseC18(cs, v, *flagTier, 150)
 		rv, _ := execC18(mc, *flagTier, true, nil)
+		confirmGC = false
 		if rv == nil || rv.Kind != mv.Kind {
 			// see the note in workC19
 			st.Unreproducible++
